@@ -292,6 +292,8 @@ DI_BOUNDS = [
     ("DICompileUnit.dwoId-max", 'distinct !DICompileUnit(language: DW_LANG_C99, file: !90, dwoId: 18446744073709551615)', ["dwoId: 18446744073709551615"]),
     ("DILocation.line-max", '!DILocation(line: 4294967295, column: 65535, scope: !91)', ["line: 4294967295", "column: 65535"]),
     ("DILexicalBlockFile.discriminator-max", '!DILexicalBlockFile(scope: !91, file: !90, discriminator: 4294967295)', ["discriminator: 4294967295"]),
+    ("DIExpression.operand-max", '!DIExpression(DW_OP_constu, 18446744073709551615, DW_OP_stack_value)', ["DW_OP_constu, 18446744073709551615"]),
+    ("DIExpression.operand-2^63", '!DIExpression(DW_OP_plus_uconst, 9223372036854775808)', ["DW_OP_plus_uconst, 9223372036854775808"]),
     ("DITemplateValueParameter.i64-min", '!DITemplateValueParameter(name: "V", type: !92, value: i64 -9223372036854775808)', ["value: i64 -9223372036854775808"]),
 ]
 
@@ -622,6 +624,40 @@ def layout_entries():
         ("alias-operand.extractelement-index", "%ix = type i32\n\ndefine i64 @f(<2 x i64> %a, %ix %i) {\n\t%r = extractelement <2 x i64> %a, %ix %i\n\t%s = add i64 %r, %r\n\tret i64 %s\n}\n", ["add i64 %r, %r"]),
         ("alias-operand.cast-source", "%b = type i8\n\ndefine i64 @f(%b %a) {\n\t%r = zext %b %a to i64\n\t%s = add i64 %r, %r\n\tret i64 %s\n}\n", ["add i64 %r, %r"]),
         ("alias-operand.gep-index", "%ix = type i64\n\ndefine i32* @f(i32* %p, %ix %i) {\n\t%r = getelementptr i32, i32* %p, %ix %i\n\t%s = getelementptr i32, i32* %r, i64 1\n\tret i32* %s\n}\n", ["getelementptr i32, i32* %r, i64 1"]),
+    ]
+    # the same positions in CONSTANT EXPRESSIONS whose own type is printed (operand of `ret`): the expression's type must not inherit the name
+    out += [
+        ("alias-expr.shufflevector-mask", "%mask = type <4 x i32>\n\ndefine <4 x float> @f() {\n\tret <4 x float> shufflevector (<2 x float> undef, <2 x float> undef, %mask <i32 0, i32 1, i32 2, i32 3>)\n}\n",
+         ["ret <4 x float> shufflevector (<2 x float> undef, <2 x float> undef, %mask <i32 0, i32 1, i32 2, i32 3>)"]),
+        ("alias-expr.select-cond", "%c = type <2 x i1>\n\ndefine <2 x i32> @f() {\n\tret <2 x i32> select (%c <i1 true, i1 false>, <2 x i32> <i32 1, i32 2>, <2 x i32> zeroinitializer)\n}\n",
+         ["ret <2 x i32> select (%c <i1 true, i1 false>, <2 x i32> <i32 1, i32 2>, <2 x i32> zeroinitializer)"]),
+        ("alias-expr.icmp", "%v = type <2 x i32>\n\n@g = global i32 0\n\ndefine <2 x i1> @f() {\n\tret <2 x i1> icmp eq (%v <i32 ptrtoint (i32* @g to i32), i32 1>, %v zeroinitializer)\n}\n",
+         ["ret <2 x i1> icmp eq (%v <i32 ptrtoint (i32* @g to i32), i32 1>, %v zeroinitializer)"]),
+        ("alias-expr.extractelement-index", "%ix = type i32\n\n@g = global i32 0\n\ndefine i64 @f() {\n\tret i64 extractelement (<2 x i64> <i64 ptrtoint (i32* @g to i64), i64 2>, %ix 1)\n}\n",
+         ["ret i64 extractelement (<2 x i64> <i64 ptrtoint (i32* @g to i64), i64 2>, %ix 1)"]),
+        ("alias-expr.cast-source", "%b = type i32*\n\n@g = global i32 0\n\ndefine i64 @f() {\n\tret i64 ptrtoint (%b @g to i64)\n}\n", ["ret i64 ptrtoint (i32* @g to i64)"]),
+        ("alias-expr.gep-index", "%ix = type i64\n\n@g = global i32 0\n\ndefine i32* @f() {\n\tret i32* getelementptr (i32, i32* @g, %ix 1)\n}\n", ["ret i32* getelementptr (i32, i32* @g, %ix 1)"]),
+    ]
+    # getelementptr INSTRUCTIONS whose vector shape comes from a constant index that is not a vector literal (the result type is cached when the
+    # instruction is translated and is printed at every use)
+    for nm, vt, c in (("zeroinitializer", "<2 x i64>", "zeroinitializer"), ("undef", "<2 x i64>", "undef"), ("scalable-zeroinitializer", "<vscale x 4 x i64>", "zeroinitializer"),
+                      ("scalable-undef", "<vscale x 4 x i32>", "undef"), ("expr", "<2 x i64>", "bitcast (<4 x i32> <i32 1, i32 0, i32 2, i32 0> to <2 x i64>)")):
+        rt = vt[:vt.rindex("x") + 1] + " i32*>"
+        out.append(("gep-inst.vector-index-" + nm, "define %s @f(i32* %%p) {\n\t%%g = getelementptr i32, i32* %%p, %s %s\n\tret %s %%g\n}\n" % (rt, vt, c, rt),
+                    ["getelementptr i32, i32* %%p, %s %s" % (vt, c), "ret %s %%g" % rt]))
+    # call sites that spell out the FUNCTION TYPE of a non-variadic callee (`invoke i32 (i32) @g(...)`): the value has the RETURN type
+    EH = "declare i32 @g(i32 %0)\n\ndeclare void @v()\n\ndeclare void ()* @h()\n\ndeclare i32 @pers(...)\n\n"
+    TAIL = "\nlp:\n\t%e = landingpad { i8*, i32 }\n\t\t\tcleanup\n\tunreachable\n}\n"
+    out += [
+        ("functype-site.invoke-value", EH + "define i32 @f(i32 %x) personality i8* bitcast (i32 (...)* @pers to i8*) {\n\t%r = invoke i32 (i32) @g(i32 %x)\n\t\t\tto label %ok unwind label %lp\n\nok:\n\t%s = add i32 %r, 1\n\tret i32 %s\n" + TAIL,
+         ["%s = add i32 %r, 1"]),
+        ("functype-site.invoke-void", EH + "define i32 @f(i32 %x) personality i8* bitcast (i32 (...)* @pers to i8*) {\n\tinvoke void () @v()\n\t\t\tto label %ok unwind label %lp\n\nok:\n\t%1 = add i32 %x, 1\n\tret i32 %1\n" + TAIL,
+         ["invoke void @v()", "%1 = add i32 %x, 1"]),
+        ("functype-site.invoke-funcptr", EH + "define void ()* @f() personality i8* bitcast (i32 (...)* @pers to i8*) {\n\t%p = invoke void ()* () @h()\n\t\t\tto label %ok unwind label %lp\n\nok:\n\tret void ()* %p\n" + TAIL,
+         ["ret void ()* %p"]),
+        ("functype-site.call-value", EH + "define i32 @f(i32 %x) {\n\t%r = call i32 (i32) @g(i32 %x)\n\t%s = add i32 %r, 1\n\tret i32 %s\n}\n", ["%s = add i32 %r, 1"]),
+        ("functype-site.call-void", EH + "define i32 @f(i32 %x) {\n\tcall void () @v()\n\t%1 = add i32 %x, 1\n\tret i32 %1\n}\n", ["call void @v()", "%1 = add i32 %x, 1"]),
+        ("functype-site.callbr-value", EH + "define i32 @f(i32 %x) {\n\t%r = callbr i32 (i32) asm sideeffect \"\", \"=r,r\"(i32 %x)\n\t\t\tto label %ok []\n\nok:\n\t%s = add i32 %r, 1\n\tret i32 %s\n}\n", ["%s = add i32 %r, 1"]),
     ]
     # constant expressions nested in expressions of the SAME kind, three deep
     G = "@g = global i32 0\n"
